@@ -430,8 +430,8 @@ func (r *FnResult) Discharge(opt SolveOptions) {
 	// The expensive stages (cut, longer timeout) are spent on the first few obligations that need them:
 	// a function with many undischarged obligations is reported as failing either way.
 	var deepMu sync.Mutex
-	deepLeft := 4
-	longLeft := 2
+	deepLeft := 10
+	longLeft := 3
 	takeLong := func() bool {
 		deepMu.Lock()
 		defer deepMu.Unlock()
@@ -660,7 +660,21 @@ func (r *FnResult) cutStage(g *Term, opt SolveOptions, name string) (bool, []Sol
 	if len(es) == 0 {
 		return false, nil, 0
 	}
-	v, runs := Race(r.Script.TextFor([]*Term{g}, true, es), opt.Dir, name+"__cutfinal", opt.Timeout, false)
+	// Each established e is the engine's (segment-wise) encoding of "a and b are the same sequence"; the
+	// final query is also given a = b itself, which the solvers otherwise have to rebuild from the segments
+	// through associativity of concatenation. It gets the longer time-out: its answer ends the stage.
+	tfMu.Lock()
+	for _, e := range append([]*Term{}, es...) {
+		if p, ok := f.hintPair[e.id]; ok {
+			x, y := p[0], p[1]
+			if x.id > y.id {
+				x, y = y, x
+			}
+			es = append(es, f.mk("=", SBool, "", x, y))
+		}
+	}
+	tfMu.Unlock()
+	v, runs := Race(r.Script.TextFor([]*Term{g}, true, es), opt.Dir, name+"__cutfinal", 4*opt.Timeout, false)
 	if v != "unsat" {
 		return false, nil, 0
 	}
@@ -719,6 +733,7 @@ func extHintsMode(f *TermFactory, goals []*Term, liberal bool) []*Term {
 		if e.op == "true" || e.op == "false" {
 			return
 		}
+		f.hintPair[e.id] = [2]*Term{a, b}
 		out = append(out, f.mk("or", SBool, "", e, f.mk("not", SBool, "", e)))
 	}
 	collect := func(t *Term) map[string][]*Term {
